@@ -1233,7 +1233,8 @@ class DocutilsRenderer(RendererProtocol):
         if isinstance(token.content, str):
             try:
                 data = yaml.safe_load(token.content)
-            except (yaml.YAMLError, ValueError):
+            except (yaml.YAMLError, ValueError, RecursionError):
+                # RecursionError: collections nested deeper than the recursion limit
                 self.create_warning(
                     "Malformed YAML",
                     MystWarnings.MD_TOPMATTER,
